@@ -141,7 +141,7 @@ PROPS = {
   'rule': 'schedules with 1..2 archives, warm or cold cache, 2..6 tile requests and 0..3 replacements (new versions with different sizes, layouts, leaf structures; occasional deletion) placed before or between '
           'the releases of blocked bucket calls; systematic schedules: one tile request, every placement of up to two replacements among its bucket calls x cold/warm cache x with/without a replacement completed beforehand, '
           'versions sharing tile ids and tile type but not layout; micro schedules: the event loop held inside the trace sink at one request\'s header lookup while another request\'s purging retry queues up '
-          '(oracle only, the executable model is macro-step). About one request in seven is a metadata or TileJSON request; calls blocked with identical arguments are released together. Non-trivial: at least one replacement; distinct by case line',
+          '(oracle only, the executable model is macro-step). About one request in seven is a metadata or TileJSON request; every 200 is observed with its Content-Type/Content-Encoding; sequential request/replace sequences on the real local-directory and HTTP buckets (their own version tags); calls blocked with identical arguments are released together. Non-trivial: at least one replacement; distinct by case line',
   'trusted_base': ['the Go scheduler, channel semantics and real time are abstracted to an interleaving LTS at the granularity of loop messages and bucket calls (coq/Model/Server.v)',
                    'the scheduling bucket of the harness stands for the bucket contract of the property (tag per version, conditional reads honoured)',
                    'quiescence of the real server is detected from goroutine states (runtime.Stack)', GZIP],
@@ -204,7 +204,7 @@ PROPS = {
   'rule': 'pairs (A,B) of clustered archives written by the harness (1..40 tiles of 40..400 bytes, or 1..2 tiles of 1..4 bytes; shared contents as back references, run lengths; root-only or one leaf level, gzip/none) '
           'where B is A with the first/last/a middle tile changed, tiles inserted at the front/end/middle, removed at the front/end/middle, all changed, many changed, or identical; block sizes 0/1/2/5 kB; '
           'GOMAXPROCS 1/2/4/16; dry run or not; origin faults (no .sync file, Range ignored, connection cut inside a multi-range body). Each pair runs makesync and sync in a child process against a loopback origin that logs '
-          'every Range header. makeMultiRanges on range lists with header budgets 1..1048376 through the verif export. All cases non-trivial; distinct by case line',
+          'every Range header. makeMultiRanges on range lists with header budgets 1..1048376 through the verif export. All cases non-trivial; distinct by case line Every kind of change meets every block size; a third of the pairs have tiles of one block each, so that an insertion or removal moves whole blocks.',
   'trusted_base': ['xxhash64 modelled as any hash function; the driver instantiates it with 60 bits of MD5; the convergence theorem carries the no-collision hypothesis for the compared byte strings',
                    'net/http client and the loopback origin (http.ServeContent: single-range 206, multipart/byteranges in request order); mime/multipart',
                    'file system: writes go to FILE.tmp, os.Rename is atomic; no fsync/power-loss reordering is modelled',
@@ -219,7 +219,7 @@ PROPS = {
   'rule': 'MBTiles databases written with the sqlite library the repo uses: formats pbf/png/jpg/webp/avif/unknown/absent (and a second format row), 1..25 tile rows at zooms 0..6 and 20..30 incl. the edges of the grid, '
           'duplicate contents, empty blobs, already-gzipped and half-magic blobs, rows and metadata rows in random insertion order, all blobs empty, no rows; metadata rows bounds/center as decimal literals '
           'with 0..8 decimals (proper, inverted and unparsable boxes; center zoom inside the tiles\' zoom range, out of int8 range or missing), json (vector_layers, tilestats, overriding name), compression, scheme, '
-          'descriptive rows with HTML and non-ASCII characters; dedup on/off. Non-trivial: more than one row; distinct by case line',
+          'descriptive rows with HTML and non-ASCII characters; dedup on/off. Non-trivial: more than one row; distinct by case line Databases whose single-level gzip directory lands between the root budget and the first fetch (convert_root, oracle only).',
   'trusted_base': [GZIP + ' (the model takes the gzip stream of each raw pbf blob from a table of the real outputs; the oracle gunzips them back)', 'sqlite (zombiezen) and the MBTiles schema', 'roaring64 set modelled as a sorted duplicate-free list',
                    'fnv128a modelled as an injective hash (no-collision hypothesis in the theorems; identity in the driver)', 'encoding/json: metadata compared member by member as canonical JSON',
                    'Flocq binary64 for int32(f*1e7) of bounds and center (truncation toward zero, as the Go code does)'],
